@@ -21,11 +21,14 @@ def run_C01(tier, seed, t0):
     known = load_known('C01')
     specs = [('harness.enc', 'enc_task', ('C01', m, w, known)) for m in isa.BASE]
     specs += [('harness.pipe', 'text_task', ('C01', m, w, False, known)) for m in isa.BASE]
+    from .pipe import ALIAS_PROGRAMS
+    specs += [('harness.pipe', 'alias_program_task', (k, False)) for k in range(len(ALIAS_PROGRAMS))]
     specs += [('harness.pipe', 'regtable_task', ())]
     res = pmap(specs)
     return finish('C01', tier, seed, res, t0,
                   bounds=dict(mnemonics=len(isa.BASE), operand_widths=_wtext(w),
                               text_route='one-instruction programs through the whole real assemble(), operands via constants=/@markers',
+                              programs='%d programs of 5-6 instructions whose register operands mix alias constants and literal spellings (all 32 registers each, symbolic): every word names the registers of its own line' % len(ALIAS_PROGRAMS),
                               register_spellings='every key of REGISTERS and 0x/0b/0o numerals compared with the ABI table'),
                   stubs=STUBS_ASM,
                   assumptions=['spec/isa.py transcribes the field diagrams of the unprivileged ISA manual v20191213 correctly (validated against the repository test vectors)'] + STUBS_ASM,
@@ -188,6 +191,9 @@ def run_C09(tier, seed, t0):
     pb = 24 if tier == 'thorough' else 20
     extra = [('harness.kernels', 'align_task', (ns[i::16], pb)) for i in range(16)]
     extra += [('harness.include', 'include_task', (t_, 34, 'C09')) for t_ in ('twice_and_last', 'depth3_first_last')]
+    # the binary a user gets is the -o file: re-assembling a shorter program to the same path must not leave bytes behind
+    from .cli import HISTORIES as _CH
+    extra += [('harness.cli', 'cli_task', ('hist:' + h, av, 'C09')) for h in _CH for av in ('default', 'o')]
     if tier == 'thorough':
         extra.append(('harness.kernels', 'align_symN_task', (64, 16)))
     return _run_layout('C09', tier, seed, t0, extra, dict(align_kernel='Align.resolution_size for pos 0..2^%d and N in 1..64, 100, 128, ..., 65536' % pb))
@@ -213,6 +219,8 @@ def run_C10(tier, seed, t0):
     specs += [('harness.data', 'include_bytes_multi_task', ())]
     from .strings import string_specs, SHAPES_QUICK, SHAPES_THOROUGH
     specs += string_specs(tier)
+    from .strings import symfile_specs
+    specs += symfile_specs('string')       # the same through read_lines and the whole assemble(), source in a file
     specs += [('harness.strings', 'string_task', (tier,))]
     res = pmap(specs)
     shapes = SHAPES_THOROUGH if tier == 'thorough' else SHAPES_QUICK
@@ -246,6 +254,8 @@ def run_C11(tier, seed, t0):
     to = 120 if tier == 'thorough' else 45
     for f in ('charlit', 'charlit_operand'):
         specs.append(('harness.xhair', 'xhair_task', ('C11', 'charlit.py', to, [f, f + '__mustfail'], [f])))
+    from .pipe import ALIAS_PROGRAMS
+    specs += [('harness.pipe', 'alias_program_task', (k, False)) for k in range(len(ALIAS_PROGRAMS))]
     res = pmap(specs)
     return finish('C11', tier, seed, res, t0,
                   bounds=dict(operand_positions='every operand of every mnemonic: constant / register alias vs literal numeral, compression off and on, ' + _wtext(w),
@@ -336,6 +346,8 @@ def run_C15(tier, seed, t0):
                 specs.append(('harness.errors', 'error_task', (f[0], pos, where, c)))
     from .history import BY_PROP as _HIST
     specs += [('harness.history', 'history_task', ('C15', sn, 40 if tier == 'thorough' else 34)) for sn in _HIST['C15']]
+    from .strings import symfile_specs
+    specs += symfile_specs('error')        # an error directive whose message is symbolic text, in a file
     res = pmap(specs)
     return finish('C15', tier, seed, res, t0,
                   bounds=dict(histories='two assemble() calls in one process with the file system edited in between, second call compared with the same call in a fresh process for every 34/40-bit K0, both modes: ' + ', '.join(_HIST['C15']),
@@ -375,7 +387,7 @@ def run_C17(tier, seed, t0):
     hist = [('hist:' + h, av) for h in HISTORIES for av in (('default', 'o', 'o_l', 'l_hex') if tier != 'thorough' else ARGVS)]
     if tier != 'thorough':
         keep = {('range', a) for a in ARGVS} | {(pg, 'o_l') for pg in PROGRAMS} | {(pg, 'l_hex') for pg in PROGRAMS} | \
-               {('data', 'o_hex_bad'), ('li_label', 'hex_bad_l'), ('range', 'hex_sym'), ('li_label', 'hex_sym_l'), ('nolabels', 'defs_v'), ('nolabels', 'hex_sym_l'), ('needs_i', 'i_two'), ('needs_i', 'i_two_dup'), ('needs_i', 'i_dir'), ('needs_i', 'default'), ('ok_only', 'hex_sym'), ('included', 'i_dir'), ('ok_only', 'defs_v'), ('parse', 'i_bad'), ('li_label', 'default')}
+               {('data', 'o_hex_bad'), ('li_label', 'hex_bad_l'), ('range', 'hex_sym'), ('li_label', 'hex_sym_l'), ('nolabels', 'defs_v'), ('nolabels', 'hex_sym_l'), ('needs_i', 'i_two'), ('needs_i', 'i_two_dup'), ('nested_i', 'i_vendor'), ('needs_i', 'i_dir'), ('needs_i', 'default'), ('ok_only', 'hex_sym'), ('included', 'i_dir'), ('ok_only', 'defs_v'), ('parse', 'i_bad'), ('li_label', 'default')}
         combos = [c for c in combos if c in keep]
     specs = [('harness.cli', 'cli_task', c) for c in combos + hist]
     res = pmap(specs)
